@@ -812,6 +812,29 @@ func (w *vmWalker) stmt(s ast.Stmt, in []*vmState) []*vmState {
 		var out []*vmState
 		for _, st := range cur {
 			lit, isOp := w.operandLit(s.Cond, st)
+			if !isOp {
+				// a boolean combination of tests on operands: one state per disjunct of the condition (and of its
+				// negation), so that `a != X && a != Y` splits like the switch it replaces
+				tDNF, ok1 := w.condDNF(s.Cond, false, st)
+				fDNF, ok2 := w.condDNF(s.Cond, true, st)
+				if ok1 && ok2 && len(tDNF) <= 8 && len(fDNF) <= 8 {
+					for _, conj := range tDNF {
+						t := st.clone()
+						t.guards = append(t.guards, conj...)
+						out = append(out, w.stmts(s.Body.List, []*vmState{t})...)
+					}
+					for _, conj := range fDNF {
+						e := st.clone()
+						e.guards = append(e.guards, conj...)
+						if s.Else != nil {
+							out = append(out, w.stmt(s.Else, []*vmState{e})...)
+						} else {
+							out = append(out, e)
+						}
+					}
+					continue
+				}
+			}
 			t, e := st.clone(), st
 			if isOp {
 				t.guards = append(t.guards, lit)
@@ -1235,6 +1258,44 @@ func (w *vmWalker) operandLit(cond ast.Expr, st *vmState) (Lit, bool) {
 		return Lit{Atom: a, Rel: rel, Val: v}, true
 	}
 	return Lit{}, false
+}
+
+// condDNF: the condition (or its negation) as a disjunction of conjunctions of operand literals.
+func (w *vmWalker) condDNF(cond ast.Expr, neg bool, st *vmState) ([][]Lit, bool) {
+	cond = stripParens(cond)
+	if lit, ok := w.operandLit(cond, st); ok {
+		if neg {
+			lit = lit.negate()
+		}
+		return [][]Lit{{lit}}, true
+	}
+	switch x := cond.(type) {
+	case *ast.UnaryExpr:
+		if x.Op == token.NOT {
+			return w.condDNF(x.X, !neg, st)
+		}
+	case *ast.BinaryExpr:
+		if x.Op != token.LAND && x.Op != token.LOR {
+			return nil, false
+		}
+		a, ok1 := w.condDNF(x.X, neg, st)
+		b, ok2 := w.condDNF(x.Y, neg, st)
+		if !ok1 || !ok2 {
+			return nil, false
+		}
+		and := (x.Op == token.LAND) != neg
+		if !and {
+			return append(append([][]Lit{}, a...), b...), true
+		}
+		var out [][]Lit
+		for _, ca := range a {
+			for _, cb := range b {
+				out = append(out, append(append([]Lit{}, ca...), cb...))
+			}
+		}
+		return out, true
+	}
+	return nil, false
 }
 
 func stripParens(e ast.Expr) ast.Expr {
